@@ -19,16 +19,6 @@ pub proof fn lemma_unesc_step(s: Seq<char>)
 {
     if s.len() >= 2 { assert(s.skip(1).skip(1) =~= s.skip(2)); }
 }
-/// every non-empty sequence is its head followed by its tail (stated with a trigger on `skip(1)` so that it
-/// fires for the iterator's pre-`next()` state, which has no name inside a `while let` body)
-pub proof fn lemma_head_skip()
-    ensures forall|s: Seq<char>| #![trigger s.skip(1)] s.len() > 0 ==> s == seq![s[0]] + s.skip(1),
-{
-    assert forall|s: Seq<char>| #![trigger s.skip(1)] s.len() > 0 implies s == seq![s[0]] + s.skip(1) by {
-        assert(s =~= seq![s[0]] + s.skip(1));
-    }
-}
-
 // ------------------------------------------------------------------ stage 2: escape sequences -> bytes
 pub open spec fn prepend(p: Seq<u8>, o: Option<Seq<u8>>) -> Option<Seq<u8>> {
     match o { Some(t) => Some(p + t), None => None }
